@@ -250,6 +250,15 @@ def gen_comb(streams):
         w = g.choice([1, 1, 2, widths[0]])
         widths = [max(2, w) if signed else w] * len(widths)
     case = {'kind': 'comb', 'gen': gen, 'widths': widths, 'cfg': cfg}
+    if g.random() < 0.25:
+        # a second unit of the same generator on the very same operand wires, in the same
+        # Block (e.g. a Wallace and a Dada multiplier side by side): each must be exact
+        twin = dict(cfg)
+        if 'reducer' in twin and g.random() < 0.7:
+            twin['reducer'] = g.choice([r for r in [None] + REDUCERS if r != cfg['reducer']])
+        if 'final' in twin and g.random() < 0.3:
+            twin['final'] = g.choice([None] + FINALS)
+        case['twin'] = twin
     vw = vec_widths(case)
     total = sum(vw)
     sch = streams['sched']
@@ -492,12 +501,18 @@ def expected_value(case, vec):
     raise HarnessError('expected_value: unknown generator')
 
 
-def build_comb(pyrtl, case, blk):
+def build_comb(pyrtl, case, blk, cfg=None, shared=None):
+    """shared: {'xs': operand wires, 'cin': carry-in wire} of an earlier unit in this Block"""
     from pyrtl.rtllib import adders, multipliers
     gen = case['gen']
-    cfg = case['cfg']
+    cfg = case['cfg'] if cfg is None else cfg
     ws = case['widths']
-    xs = [pyrtl.Input(w, 'x%d' % i) for i, w in enumerate(ws)]
+    if shared is not None and shared.get('xs'):
+        xs = shared['xs']
+    else:
+        xs = [pyrtl.Input(w, 'x%d' % i) for i, w in enumerate(ws)]
+        if shared is not None:
+            shared['xs'] = xs
     kw = {}
     if cfg.get('final') is not None:
         kw['final'] = getattr(adders, cfg['final'])
@@ -510,7 +525,12 @@ def build_comb(pyrtl, case, blk):
         elif cfg['cin'] == 'c1':
             akw['cin'] = 1
         elif cfg['cin'] == 'wire':
-            akw['cin'] = pyrtl.Input(1, 'cin')
+            if shared is not None and shared.get('cin') is not None:
+                akw['cin'] = shared['cin']
+            else:
+                akw['cin'] = pyrtl.Input(1, 'cin')
+                if shared is not None:
+                    shared['cin'] = akw['cin']
         if cfg.get('la_unit_len') is not None:
             akw['la_unit_len'] = cfg['la_unit_len']
         return getattr(adders, gen)(xs[0], xs[1], **akw)
@@ -576,10 +596,18 @@ def run_comb(case, res):
     blk = pyrtl.Block()
     try:
         with pyrtl.set_working_block(blk, no_sanity_check=True):
-            r = build_comb(pyrtl, case, blk)
+            shared = {}
+            r = build_comb(pyrtl, case, blk, shared=shared)
             rw = len(r)
             y = pyrtl.Output(rw, 'y')
             y <<= r
+            rw2 = None
+            if case.get('twin') is not None:
+                r2 = build_comb(pyrtl, case, blk, cfg=case['twin'], shared=shared)
+                rw2 = len(r2)
+                y2 = pyrtl.Output(rw2, 'y2')
+                y2 <<= r2
+                res.probes.hit('comb:twin_unit')
         sim = make_sim(pyrtl, case['sim'], blk)
     except HarnessError:
         raise
@@ -600,6 +628,15 @@ def run_comb(case, res):
         res.log.log('comb', 'vec', vec, got)
         exp = expected_value(case, vec)
         val = _to_signed(got, rw) if signed else got
+        if val == exp and rw2 is not None:
+            got2 = sim.inspect('y2')
+            val2 = _to_signed(got2, rw2) if signed else got2
+            if val2 != exp:
+                res.nontrivial = True
+                return Violation('comb_exact', gen + '.second_unit_on_same_operands_wrong',
+                                 {'widths': ws, 'cfg': cfg, 'twin_cfg': case['twin'], 'vector': vec,
+                                  'expected': exp, 'got': val2, 'first_unit': val},
+                                 tags + ['twin'])
         if val != exp:
             res.nontrivial = True
             vt = list(tags)
@@ -709,6 +746,10 @@ def _drop_operand(case, idx):
 
 def comb_candidates(case):
     vw = vec_widths(case)
+    if case.get('twin') is not None:
+        c = copy.deepcopy(case)
+        c['twin'] = None
+        yield c
     if case.get('exhaustive'):
         c = copy.deepcopy(case)
         c['exhaustive'] = False
